@@ -205,15 +205,27 @@ pub fn fmt_number(x: f64) -> String {
     }
     let neg = x < 0.0;
     let a = x.abs();
+    // Shortest digit string that parses back to `a`: at each precision take the correctly rounded
+    // digits D and its two neighbours in the last place (the round-trip interval is convex, so if any
+    // p-digit decimal lies in it, one of these three does), preferring D.
     let mut digits = String::new();
     let mut exp: i32 = 0;
-    for prec in 0..17usize {
+    'outer: for prec in 0..17usize {
         let s = format!("{:.*e}", prec, a);
-        if s.parse::<f64>().map(|y| y == a).unwrap_or(false) || prec == 16 {
-            let (m, e) = s.split_once('e').unwrap();
-            digits = m.replace('.', "");
-            exp = e.parse().unwrap();
-            break;
+        let (m, e) = s.split_once('e').unwrap();
+        let base_digits: String = m.replace('.', "");
+        let base_exp: i32 = e.parse().unwrap();
+        for delta in [0i32, 1, -1] {
+            let (d, ex) = match bump(&base_digits, base_exp, delta) {
+                Some(x) => x,
+                None => continue,
+            };
+            let text = format!("{}.{}e{}", &d[..1], &d[1..], ex);
+            if text.parse::<f64>().map(|y| y == a).unwrap_or(false) || (prec == 16 && delta == 0) {
+                digits = d;
+                exp = ex;
+                break 'outer;
+            }
         }
     }
     // value = 0.d1d2d3... * 10^(exp+1)
@@ -242,6 +254,77 @@ pub fn fmt_number(x: f64) -> String {
         out.push_str(&digits[point as usize..]);
     }
     out
+}
+
+/// add `delta` (0, +1, -1) to the last digit of a decimal digit string, keeping its length
+fn bump(digits: &str, exp: i32, delta: i32) -> Option<(String, i32)> {
+    if delta == 0 {
+        return Some((digits.to_string(), exp));
+    }
+    let mut d: Vec<u8> = digits.bytes().map(|b| b - b'0').collect();
+    let mut i = d.len();
+    if delta > 0 {
+        loop {
+            if i == 0 {
+                // 99..9 + 1 = 100..0: one more leading digit, drop the last to keep the length
+                let mut v = vec![1u8];
+                v.extend(std::iter::repeat(0).take(d.len() - 1));
+                return Some((v.iter().map(|x| (x + b'0') as char).collect(), exp + 1));
+            }
+            i -= 1;
+            if d[i] == 9 {
+                d[i] = 0;
+            } else {
+                d[i] += 1;
+                break;
+            }
+        }
+    } else {
+        loop {
+            if i == 0 {
+                return None;
+            }
+            i -= 1;
+            if d[i] == 0 {
+                d[i] = 9;
+            } else {
+                d[i] -= 1;
+                break;
+            }
+        }
+        if d[0] == 0 {
+            return None;
+        }
+    }
+    Some((d.iter().map(|x| (x + b'0') as char).collect(), exp))
+}
+
+/// true when, at the shortest precision, more than one digit string parses back to `x`: which of them
+/// is printed is a tie-breaking detail the property does not fix
+pub fn fmt_number_ambiguous(x: f64) -> bool {
+    if !x.is_finite() || x == 0.0 {
+        return false;
+    }
+    let a = x.abs();
+    for prec in 0..17usize {
+        let s = format!("{:.*e}", prec, a);
+        let (m, e) = s.split_once('e').unwrap();
+        let base_digits: String = m.replace('.', "");
+        let base_exp: i32 = e.parse().unwrap();
+        let mut ok = 0;
+        for delta in [0i32, 1, -1] {
+            if let Some((d, ex)) = bump(&base_digits, base_exp, delta) {
+                let text = format!("{}.{}e{}", &d[..1], &d[1..], ex);
+                if text.parse::<f64>().map(|y| y == a).unwrap_or(false) {
+                    ok += 1;
+                }
+            }
+        }
+        if ok > 0 {
+            return ok > 1;
+        }
+    }
+    false
 }
 
 pub const ADDR: &str = "[ADDR]";
